@@ -30,6 +30,10 @@ def monitor(line):
         return "live thread/VM/instance/timer but idle: " + line
     if n["cls"] == 0 and (n["thr"] or n["vm"] or n["tim"]):
         return "no script instance but threads/VMs/timers remain: " + line
+    # between host operations no VM is on the native stack, so every script instance has at least one
+    # thread (the last thread leaving deletes its instance; a failed start deletes the fresh instance)
+    if n["cls"] and n["thr"] == 0:
+        return "script instance(s) without any thread (nothing will ever delete them; the engine can never report idle): " + line
     return None
 
 
@@ -67,6 +71,8 @@ def every_boundary(quick):
         for cut in range(1, len(body) + 1):
             for inj in (["reset-director", schedgen.script_line(prog)], [schedgen.script_line(prog)]):
                 cases.append(base[:2] + body[:cut] + inj + ["call m t1" if len(prog) > 1 else "call m t0", "step 125", "step 1000", "step 1000"])
+    # thread starts at labels that do not exist, every script form and every host form (deterministic)
+    cases += schedgen.badlabel_family()
     return cases
 
 
@@ -74,11 +80,15 @@ def check(ctx):
     # the monitor runs on every implementation line, also where model and engine agree
     gens = [("reset", 400, 30000, reset_case), ("sync", 500, 20000, lambda r: schedgen.gen_case(r, schedgen.gen_sync_prog(r))),
             ("timer", 200, 10000, lambda r: schedgen.gen_case(r, schedgen.gen_timer_prog(r))),
-            ("hub", 150, 8000, lambda r: schedgen.gen_case(r, schedgen.gen_hub_prog(r), ncalls=1))]
+            ("hub", 150, 8000, lambda r: schedgen.gen_case(r, schedgen.gen_hub_prog(r), ncalls=1)),
+            ("badlabel", 300, 15000, schedgen.gen_badlabel_case)]
     rule = ("sync/timer programs under random schedules with director.Reset(), a recompile of the same script or of a different "
             "script injected at a random frame / host-call boundary, then compiled and run again; plus a fixed family with the "
-            "injection at EVERY boundary; every engine answer is also checked by the monitor idle=>all pools empty, "
-            "alive=>not idle, Reset=>all pools empty; non-trivial = at least one accepted command; distinct by SHA-1")
+            "injection at EVERY boundary; the same program classes with thread starts at labels that do not exist "
+            "(thread / waitthread / exec / waitexec, on the thread itself, on an object, on level, in a second file, in a "
+            "missing file, in statement and in expression position) and host calls of missing labels through every "
+            "ExecuteThread overload, random and as a fixed family; every engine answer is also checked by the monitor idle=>all pools empty, "
+            "alive=>not idle, every instance has a thread, Reset=>all pools empty; non-trivial = at least one accepted command; distinct by SHA-1")
     rc = schedcheck.run(ctx, PROP, PROPS_MODULE, PROPS_FILE, gens, TRUSTED, ASSUME, rule, exhaustive=every_boundary,
                         line_monitor=monitor)
     return rc
